@@ -50,7 +50,7 @@ type c03Info struct {
 
 func oracleC03(l *harness.Live) (c03Info, *harness.Failure) {
 	var info c03Info
-	env := &xref.Env{Doc: l.Doc}
+	env := refEnvOf(l)
 	want, err := refNodes(l)
 	if err != nil {
 		return info, refFailure(err)
@@ -170,6 +170,12 @@ func TestC03Rapid(t *testing.T) {
 		if prefixed {
 			o.NS = &xgen.NSOpts{Prefixes: []string{"", "p", "p", "q"}, URIs: []string{"", "u"}}
 		}
+		nsFinish := func(*xgen.G, *harness.Live) {}
+		if !prefixed {
+			// or a namespace map: a prefixed test then matches by URI, and siblings that spell the
+			// same prefix over different URIs are NOT candidates of one another's tests
+			o, nsFinish = nsModeFor(rt, o)
+		}
 		shape := xgen.Shape(rt, &o)
 		doc := xgen.Doc(rt, o)
 		ctx := xgen.Context(rt, doc, 5)
@@ -178,6 +184,7 @@ func TestC03Rapid(t *testing.T) {
 		if prefixed {
 			g.Prefixes = []string{"", "p", "q"}
 		}
+		nsFinish(g, nil)
 		if shape == "doc:wide" {
 			g.PosLits = []string{"1", "2", "9", "10", "11", "12", "13", "3"} // two-digit positions
 		}
@@ -186,6 +193,7 @@ func TestC03Rapid(t *testing.T) {
 		}
 		e := g.PosExpr(ctx)
 		l := &harness.Live{Property: "C03", Check: "C03/positional", Doc: doc, Ctx: ctx, AST: e, Expr: renderDrawn(rt, e), Flavour: flavourOf(rt)}
+		nsFinish(nil, l)
 		info, f := oracleC03(l)
 		if f != nil {
 			if inconclusive(uC03, f) {
